@@ -42,7 +42,7 @@ func Replay(r *vk.Run, c map[string]any) error {
 		}
 		r.Case(CoqSeq(again), map[string]any{"kind": "seq", "ops": again}, "replay:re-executed", true)
 	case "hist":
-		record(r, ops, "replay:recorded", nil)
+		record(r, ops, "replay:recorded", map[string]any{"background": c["background"]})
 		ng := 0
 		for i := range ops {
 			if ops[i].G+1 > ng {
@@ -58,9 +58,10 @@ func Replay(r *vk.Run, c map[string]any) error {
 			if err != nil {
 				return err
 			}
-			again := runHistory(db, progs, r.Rng, false)
+			bgm, _ := c["background"].(string)
+			again := runHistory(db, progs, r.Rng, bgm)
 			db.Close()
-			record(r, again, "replay:re-executed", nil)
+			record(r, again, "replay:re-executed", map[string]any{"background": bgm})
 		}
 	default:
 		return fmt.Errorf("unknown case kind %v", c["kind"])
